@@ -124,12 +124,4 @@ def checkBfd (buf : Bytes) : BObs → Verdict
       if 24 ≤ buf.length ∧ buf[3]? = some buf.length then .ok
       else .fail 0 "bfd-decoded-a-packet-whose-length-octet-disagrees"
 
-/-! ### exploration of the hypothesis-backed NLRI decoders: only the structural class is observed -/
-
-def checkHyp (cls : String) : Verdict :=
-  if cls = "fine" then .ok
-  else if cls = "panic" then .fail 0 "hyp-panic"
-  else if cls = "stall" then .fail 0 "hyp-stall"
-  else .fail 0 "hyp-bad-framing"
-
 end Rbgp.Wire.Spec
